@@ -57,9 +57,10 @@ def check_offsets(ctx, dbg, data, gf, replay):
             instrs = lst[ea.get('index', 0)]
         else:
             continue
-        if ty == 'msg-script' and len(instrs) > len(sc['instrs']) and all((i.time, i.opcode, len(i.blob)) == (0, 0, 0) for i in instrs[len(sc['instrs']):]):
-            # an MSG script ends with an all-zero item, which looks like an instruction whenever more data follows (here: the end markers
-            # of this and of following empty scripts): the layout cannot tell them apart, so trailing all-zero items are not instructions
+        if ty == 'msg-script' and len(instrs) > len(sc['instrs']) and (instrs[len(sc['instrs'])].time, instrs[len(sc['instrs'])].opcode, len(instrs[len(sc['instrs'])].blob)) == (0, 0, 0):
+            # an MSG script ends with an all-zero item, which looks like an instruction whenever more data follows (the end markers of this
+            # and of following empty scripts, or a following script that no table entry points to): the layout cannot tell them apart, so
+            # what follows the all-zero item right after the instructions the debug info lists is not part of this script
             instrs = instrs[:len(sc['instrs'])]; ctx.count('msg_trailing_terminators_trimmed')
         want = [i.offset for i in instrs]
         got = [i['offset'] for i in sc['instrs']]
